@@ -15,6 +15,14 @@
 //! diagnostics by an independent pipeline (`fresh_diags`: new `LintGroup`, new dictionary, new
 //! `Document`) and must equal the published JSON exactly, otherwise the publication is `?`.
 //! The Lean model (`Harper.Model.Server`, op `srv`) predicts the same line from the action list.
+//! (w24) A history executed one handler at a time (every message sent to an idle server, its
+//! configuration requests answered at once, oldest first, no silent configuration change — the shape
+//! of `Harper.Server.seqActs`) gives a SECOND K case from the same run: op `srvseq` carries the
+//! history without the answers; the model runs `runMacro` on its own schedule `seqActs` AND `seqRun`
+//! on the op list and prints both (+ `LatestAt` per URI); the implementation line carries the real
+//! server's publications (+ the verdict of O per URI) on both sides. So a disagreement between the
+//! two schedulers inside the model (`C09.macro_is_seqRun` says there is none), or of either with the
+//! real server, is a K disagreement.
 //!
 //! O: after the history has quiesced, for every URI the client has open the LAST publication must
 //! equal `fresh_diags` of the newest text the client sent under the client's current configuration
@@ -551,6 +559,13 @@ pub struct CaseOut {
     timeout: Option<String>,
     n_actions: usize,
     n_pubs: usize,
+    /// (w24) a second K case for histories executed ONE HANDLER AT A TIME (every message sent to an
+    /// idle server, every configuration request answered — oldest first, with the client's
+    /// configuration — before the next client action, no silent configuration change): the op
+    /// `srvseq` (the history without the answers; the model schedules them itself, `seqActs`) and the
+    /// implementation line = the real server's publications + the verdict of O per URI, on both
+    /// sides of `| seq |` (the model prints `runMacro` on the left, `seqRun` on the right).
+    seq: Option<(String, String)>,
 }
 
 struct World {
@@ -620,6 +635,8 @@ fn run_case(sdir: &Path, langs: &[Lang], mut script: Script, origin: &str, deadl
     let mut timeout: Option<String> = None;
     let mut fixed_pos = 0usize;
     let mut sent_msgs = 0usize;
+    // (w24) the history has the shape of `Harper.Server.seqActs`: see `CaseOut::seq`
+    let mut seq_shape = true;
 
     let mut ls = match LsSession::start() {
         Ok(l) => l,
@@ -635,6 +652,7 @@ fn run_case(sdir: &Path, langs: &[Lang], mut script: Script, origin: &str, deadl
                 timeout: Some(e.to_string()),
                 n_actions: 0,
                 n_pubs: 0,
+                seq: None,
             };
         }
     };
@@ -677,6 +695,11 @@ fn run_case(sdir: &Path, langs: &[Lang], mut script: Script, origin: &str, deadl
             // ---- client-side bookkeeping + the message ----------------------------------
             let before = ls.pending_count();
             let pubs0 = ls.all_publications().len();
+            match &act {
+                Act::Reply { idx } => seq_shape &= *idx == 0,
+                Act::SetCfg { .. } => seq_shape = false,
+                _ => seq_shape &= before == 0,
+            }
             let mut new_handler: Option<HandlerRec> = None;
             let hr = |touches: Vec<usize>, reread: Vec<usize>, is_cfg: bool, single: bool| HandlerRec {
                 act: ai,
@@ -934,6 +957,7 @@ fn run_case(sdir: &Path, langs: &[Lang], mut script: Script, origin: &str, deadl
             timeout,
             n_actions: acts.len(),
             n_pubs: 0,
+            seq: None,
         };
     }
 
@@ -1003,6 +1027,7 @@ fn run_case(sdir: &Path, langs: &[Lang], mut script: Script, origin: &str, deadl
         }
         None
     };
+    let mut latest_ok: Vec<bool> = vec![true; n];
     for u in 0..n {
         let last = decoded[u].last().cloned();
         let last_raw = ls.last_publication(&uris[u]).cloned();
@@ -1023,6 +1048,7 @@ fn run_case(sdir: &Path, langs: &[Lang], mut script: Script, origin: &str, deadl
         } else {
             (last_raw.as_ref().map(|r| r.as_array().map(|a| a.is_empty()).unwrap_or(false)).unwrap_or(true), "E".to_string())
         };
+        latest_ok[u] = ok;
         if ok {
             continue;
         }
@@ -1139,7 +1165,25 @@ fn run_case(sdir: &Path, langs: &[Lang], mut script: Script, origin: &str, deadl
     }
     tags.insert(format!("uris:{}", n));
     let nontrivial = n_pubs >= 3 && decoded.iter().any(|d| d.iter().any(|x| matches!(x, Dec::Diag { .. })));
-    CaseOut { op, imp, input, failures, tags: tags.into_iter().collect(), nontrivial, attribution_ok, timeout, n_actions: acts.len(), n_pubs }
+    // (w24) the same run as a `srvseq` case
+    let seq = if seq_shape && ls.pending_count() == 0 && acts.iter().any(|a| a.is_msg()) {
+        let hist: Vec<String> = acts
+            .iter()
+            .enumerate()
+            .filter(|(_, a)| !matches!(a, Act::Reply { .. }))
+            .map(|(i, a)| a.show(act_k[i], cfg_orders.get(&i)))
+            .collect();
+        let sop = format!("srvseq {} | {} | {}", n, langs.iter().map(|l| l.code()).collect::<Vec<_>>().join(" "), hist.join(" "));
+        let side = format!("{} | L {}", imp.strip_prefix("ok ").unwrap_or(&imp), latest_ok.iter().map(|b| if *b { "1" } else { "0" }).collect::<Vec<_>>().join(" "));
+        tags.insert("srvseq".into());
+        if latest_ok.iter().all(|b| *b) {
+            tags.insert("srvseq:latest-everywhere".into());
+        }
+        Some((sop, format!("ok {} | seq {}", side, side)))
+    } else {
+        None
+    };
+    CaseOut { op, imp, input, failures, tags: tags.into_iter().collect(), nontrivial, attribution_ok, timeout, n_actions: acts.len(), n_pubs, seq }
 }
 
 /// a configuration event: usually `didChangeConfiguration` to a new version; sometimes the client's
@@ -1298,6 +1342,15 @@ fn corpus() -> Vec<(&'static str, Vec<Lang>, Vec<Act>)> {
         // more than four handlers in flight: the fifth waits for a slot
         ("five-in-flight", vec![Plain], parse_acts("W:0:0:0 O:0:0:0 R:0 C:0:1:0 C:0:2:0 C:0:3:0 C:0:4:0 C:0:5:0 R:0 R:0 R:0 R:0 R:0")),
         ("unknown-language", vec![Unknown, Plain], parse_acts("O:0:0:0 R:0 C:0:1:0 R:0 O:1:0:0 R:0")),
+        // (w24) one-handler-at-a-time histories in the vocabulary of the theorems (each also yields a
+        // `srvseq` case): `C09.niceHistory` (every handler once, configuration 3);
+        ("seq-nice-history", vec![Markdown], parse_acts("W:0:0:0 O:0:0:0 R:0 C:0:1:0 R:0 W:0:1:0 S:0 R:0 AU:1:0 R:0 AF:3:0 R:0 I:0 G:3: R:0 L:0 D:0")),
+        // the second `HistOk` witness of `Props/C09.lean` (two documents, a two-key configuration
+        // handler, a document reopened under an id no parser exists for — here a third URI);
+        ("seq-two-docs-config", vec![Plain, Markdown, Unknown], parse_acts("W:0:0:0 O:0:0:0 R:0 W:1:0:0 O:1:0:0 R:0 G:2: R:0 R:0 S:1 R:0 AF:4:1 R:0 L:1 AU:1:0 R:0 O:2:0:0 R:0")),
+        // a re-reading handler whose file is missing sends NO configuration request: the answer the
+        // model's schedule (`seqActs`) holds ready for it is ignored
+        ("seq-missing-file-no-request", vec![Plain], parse_acts("O:0:0:0 R:0 S:0 C:0:1:0 R:0 AF:3:0 G:1: C:0:2:0 R:0")),
     ]
 }
 
@@ -1332,6 +1385,12 @@ fn record(sess: &mut Session, c: CaseOut) {
     }
     if case < 4 {
         sess.sample(json!({"op": trunc(&c.op, 400), "impl": trunc(&c.imp, 600)}));
+    }
+    if let Some((sop, simp)) = &c.seq {
+        sess.k(sop, simp);
+        if c.nontrivial {
+            sess.nontrivial(sop);
+        }
     }
     for (class, desc) in c.failures {
         sess.fail(&class, desc, c.input.clone(), Some(case));
@@ -1399,7 +1458,7 @@ pub fn run(ctx: &Ctx) {
     }
     let fresh_n = FRESH_COMPUTED.load(std::sync::atomic::Ordering::Relaxed);
     sess.finish(
-        "corpus (clean sessions + one witness per recorded finding); random histories of 4–14 client messages (didOpen/didChange/didSave/didClose/didChangeWatchedFiles(delete file | delete directory)/didChangeConfiguration/HarperAddToUserDict/HarperAddToFileDict/HarperIgnoreLint, silent disk writes) over 1–3 URIs (plaintext, markdown, rust, one unsupported language) against the real in-process server; sequential = every configuration request answered at once, concurrent = up to 4 (occasionally 5+) handlers held and released in random order. Non-trivial = ≥3 publications of which ≥1 non-empty; distinct by the op line.",
+        "corpus (clean sessions + one witness per recorded finding); random histories of 4–14 client messages (didOpen/didChange/didSave/didClose/didChangeWatchedFiles(delete file | delete directory)/didChangeConfiguration/HarperAddToUserDict/HarperAddToFileDict/HarperIgnoreLint, silent disk writes) over 1–3 URIs (plaintext, markdown, rust, one unsupported language) against the real in-process server; sequential = every configuration request answered at once, concurrent = up to 4 (occasionally 5+) handlers held and released in random order; every history of the sequential shape without a silent configuration change (corpus or random) is also a `srvseq` case (runMacro on seqActs and seqRun, both against the same real run). Non-trivial = ≥3 publications of which ≥1 non-empty; distinct by the op line.",
         false,
         json!({
             "histories_planned": total, "histories_run": done + corpus().len(),
